@@ -306,6 +306,7 @@ func (i *arrayPropIter) next() (propIterItem, iterNextFunc) {
 		}
 	}
 
+	i.a.getLengthProp() // the 'length' item refers to the property cell
 	return i.a.baseObject.iterateStringKeys()()
 }
 
